@@ -1237,7 +1237,11 @@ class ApertureStats:
         """
         areas = np.array([np.sum(weight.filled(0.0))
                           for weight in self._weight_cutout])
-        areas[self._all_masked] = np.nan
+        # use the total mask of the ``sum_method`` aperture mask (not
+        # the "center" method one) so that the area is consistent with
+        # ``sum`` and ``sum_err``
+        all_masked = np.array([np.all(mask) for mask in self._mask_cutout])
+        areas[all_masked] = np.nan
         return areas << (u.pix**2)
 
     @lazyproperty
